@@ -20,7 +20,10 @@ def _repo_srcs():
     return r
 
 
-HARNESS = {"src": "harness/c05.cpp", "repo_srcs": _repo_srcs(), "flags": [], "libs": []}
+# Diagnostic mode: C05_NO_MOVE_ONLY=1 builds the harness without the move-only twin and generates no `M` lines. Use it when a change
+# in /repo makes the move-only instantiations fail to compile (reported as a broken correspondence) to get the concrete inputs.
+NO_MOVE_ONLY = bool(os.environ.get("C05_NO_MOVE_ONLY"))
+HARNESS = {"src": "harness/c05.cpp", "repo_srcs": _repo_srcs(), "flags": ["-DC05_NO_MOVE_ONLY"] if NO_MOVE_ONLY else [], "libs": []}
 TIE = ("hand-written transfer programs (FcpptModel/Model/C05.lean over the machine of Model/C05/Machine.lean) + differential "
        "correspondence: the real templates instantiated with an instrumented element type (identity, live/moved-from, copy/move/read "
        "log) and its move-only twin; only the event abstraction is compared")
@@ -30,7 +33,8 @@ RULE = ("one op = one call of one registered operation: `<op> <T|M> <nargs> <cat
         "every value category of every argument (l = T&, c = T const&, r = T&& / by value, i = documented in/out), every size 0..3 "
         "(thorough: 0..5) of every container argument, present/absent and every alternative, every answer table of the user's function "
         "(keep masks, break position, output counts, key present/absent), with the copyable element type and - wherever the "
-        "instantiation exists - the move-only one. Non-trivial = some argument is non-empty.")
+        "instantiation exists - the move-only one; plus seeded samples with 6..10 elements per container for the operations on "
+        "containers without a static size. Non-trivial = some argument is non-empty (or, without arguments, some value is made).")
 ASSUMPTIONS = [
     "C++ value categories, temporaries, copy elision and overload resolution are language-level facts outside the model: the per-element "
     "transfer annotation of every program (move / copy / handed on as lvalue / whole-container move) is justified by the correspondence on "
@@ -167,9 +171,9 @@ def table():
         ("tuppush", [ANY, ANY], sized(2, {1: [1]}, cap=3), rv_only),
         ("tupconcat", ["r", "r"], sized(2, cap=2), always),
         ("arrmap", [ANY], sized(1, cap=3), always),
-        ("arrpush", ["r", ANY], sized(2, {1: [1]}, cap=3), rv_only),
-        ("arrjoin2", ["r", ANY], sized(2, cap=2), rv_only),
-        ("arrjoin3", ["r", ANY, ANY], sized(3, {2: [1]}, cap=2), rv_only),
+        ("arrpush", [ANY, ANY], sized(2, {1: [1]}, cap=3), rv_only),
+        ("arrjoin2", [ANY, ANY], sized(2, cap=2), rv_only),
+        ("arrjoin3", [ANY, ANY, ANY], sized(3, {2: [1]}, cap=2), rv_only),
         ("arrfromrange", [ANY], sized(1, par=lambda s: [[k] for k in range(4)], cap=4), rv_only),
         ("recmap", ["r"], sized(1, cap=3), always),
         ("recpermute", [ANY], sized(1, par=lambda s: [list(p) for p in itertools.permutations(range(s[0]))], cap=3), rv_only),
@@ -212,7 +216,7 @@ def lines_for(row, maxn):
         for sizes, par in shapes(maxn):
             body = " ".join([str(len(cats))] + [arg_tok(k, c, n) for k, (c, n) in enumerate(zip(cats, sizes))] + [str(p) for p in par])
             out.append(f"{name} T {body}")
-            if mo(cats):
+            if mo(cats) and not NO_MOVE_ONLY:
                 out.append(f"{name} M {body}")
     return out
 
@@ -230,12 +234,75 @@ def nontrivial(op, result):
     return any(":" in x and not x.endswith(":-") for x in t[3:]) or (t[2] == "0" and len(t) > 3)
 
 
+# operations whose containers have no static size: seeded samples with 6..10 elements per container
+# name, value categories per argument, fixed sizes, parameters(rng, sizes)
+def sampled_table():
+    none = lambda r, s: []
+    return [
+        ("algmap", [ANY], {}, none, always),
+        ("fold", [ANY, "r"], {1: 1}, none, always),
+        ("foldbrk", [ANY, "r"], {1: 1}, lambda r, s: [r.below(s[0] + 1)], always),
+        ("mapcat", [ANY], {}, lambda r, s: [r.below(3) for _ in range(s[0])], always),
+        ("mapopt", [ANY], {}, lambda r, s: [r.below(2) for _ in range(s[0])], always),
+        ("reverse", [ANY], {}, none, rv_only),
+        ("join2", [ANY, ANY], {}, none, rv_only),
+        ("join3", [ANY, ANY, ANY], {}, none, rv_only),
+        ("popback", ["i"], {}, none, always),
+        ("popfront", ["i"], {}, none, always),
+        ("mrmap", ["r"], {}, none, always),
+        ("moveclear", ["i"], {}, none, always),
+        ("goi", ["i"], {}, lambda r, s: [r.below(s[0] + 1)], always),
+        ("goiwr", ["i"], {}, lambda r, s: [r.below(s[0] + 1)], always),
+        ("eithseq", ["r"], {}, lambda r, s: [0 if r.chance(1, 6) else 1 for _ in range(s[0])], always),
+        ("arrfromrange", [ANY], {}, lambda r, s: [r.below(4)], rv_only),
+        ("treepushval", ["i", ANY], {1: 1}, none, lambda cats: cats[1] == "r"),
+        ("treerelease", ["i"], {}, lambda r, s: [r.below(s[0] - 1)], always),
+        ("treemap", [ANY], {}, none, always),
+    ]
+
+
+def sampled_lines(rng, count):
+    rows = sampled_table()
+    out = []
+    for _ in range(count):
+        k = rng.below(len(rows) + 3)
+        if k >= len(rows):
+            # presence masks / answer lists of length 6..10
+            ln = rng.range(6, 10)
+            which = k - len(rows)
+            if which == 0:
+                name = rng.choice(["optseq", "optcat"])
+                mask = [0 if rng.chance(1, 5) else 1 for _ in range(ln)]
+                cat = rng.choice(list(ANY))
+                body = f"1 {arg_tok(0, cat, sum(mask))} " + " ".join(map(str, mask))
+                out.append(f"{name} T {body}")
+                if cat == "r":
+                    out.append(f"{name} M {body}")
+            elif which == 1:
+                mask = [1 if rng.chance(1, 5) else 0 for _ in range(ln)]
+                out.append("eithfirst " + rng.choice("TM") + " 0 " + " ".join(map(str, mask)))
+            else:
+                out.append("parserep " + rng.choice("TM") + f" 0 {rng.range(4, 8)}")
+            continue
+        name, cat_sets, fixed, par, mo = rows[k]
+        cats = [rng.choice(list(cs)) for cs in cat_sets]
+        sizes = [fixed.get(i, rng.range(6, 10)) for i in range(len(cats))]
+        ps = par(rng, sizes)
+        body = " ".join([str(len(cats))] + [arg_tok(i, c, n) for i, (c, n) in enumerate(zip(cats, sizes))] + [str(x) for x in ps])
+        out.append(f"{name} T {body}")
+        if mo(cats):
+            out.append(f"{name} M {body}")
+    return [l for l in out if not (NO_MOVE_ONLY and l.split()[1] == "M")]
+
+
 def batches(rng, tier):
     maxn = 5 if tier == "thorough" else 3
     for row in table() + candidates():
         ops = lines_for(row, maxn)
         yield Batch(row[0], ops, exhaustive=True,
                     note=f"every value category x every shape up to size {maxn} x every answer table of the user's function, copyable and move-only element type")
+    yield Batch("large-sampled", sampled_lines(rng.fork("large"), 2500 if tier == "thorough" else 400),
+                note="operations on containers without a static size: 6..10 elements per container, random value categories and answer tables")
 
 
 MANIFEST = {
@@ -243,7 +310,9 @@ MANIFEST = {
                    "FcpptModel/Model/C05.lean) is a program over per-element transfers (move / copy / hand on as lvalue / whole-container "
                    "move / pop / swap) that mirrors the template's control flow; for every operation, every argument size and every value "
                    "category the interpreter's event abstraction satisfies rvalue_no_copy, rvalue_moved_at_most_once, no_read_after_move, "
-                   "lvalue_unchanged, result_at_most_once, conserved and accepts_move_only. The programs are tied to the code by a "
+                   "lvalue_unchanged, result_at_most_once, conserved, accepts_move_only, nothing_lost (all but the four operations that "
+                   "drop by design) and rvalue_exactly_once_in_result (the 42 operations documented to keep all elements). The programs "
+                   "are tied to the code by a "
                    "differential correspondence that instantiates the real templates with an instrumented element type and its move-only "
                    "twin and enumerates all small shapes."),
     "level_note": ("PARTIAL: C++ value categories, temporaries and overload resolution are language-level facts - the model's per-element "
